@@ -67,6 +67,9 @@ _OOO_NAMESPACES = {
 _NUMBER_COLUMNS_REPEATED = "{" + _OOO_NAMESPACES["table"] + "}number-columns-repeated"
 _NUMBER_ROWS_REPEATED = "{" + _OOO_NAMESPACES["table"] + "}number-rows-repeated"
 _TEXT_C = "{" + _OOO_NAMESPACES["text"] + "}c"
+#: Largest repeat count ODS cells, rows and blanks can have; this is the number of rows of the largest sheets
+#: spreadsheet applications support and still small enough to be processed.
+_MAX_ODS_REPEATED_COUNT = 2**24
 _TEXT_LINE_BREAK = "{" + _OOO_NAMESPACES["text"] + "}line-break"
 _TEXT_S = "{" + _OOO_NAMESPACES["text"] + "}s"
 _TEXT_TAB = "{" + _OOO_NAMESPACES["text"] + "}tab"
@@ -286,6 +289,12 @@ def ods_rows(source_ods_path, sheet=1):
         if result < 1:
             raise errors.DataFormatError(
                 "%s is %s but must be at least 1" % (display_name, _compat.text_repr(repeated_text)), location
+            )
+        if result > _MAX_ODS_REPEATED_COUNT:
+            raise errors.DataFormatError(
+                "%s is %s but must be at most %d"
+                % (display_name, _compat.text_repr(repeated_text), _MAX_ODS_REPEATED_COUNT),
+                location,
             )
         return result
 
